@@ -107,7 +107,29 @@ def reload_scripts(rng, n):
         after = [svcs[1]]
         cfg = proto.Config(svcs, timeout=rng.choice([None, 3600]))
         kind = ["more-then-removed", "leaver-then-removed", "more-then-removed", "owed-answer", "two-waiters", "leaver-then-removed", "retry-then-removed",
-                "more-then-replaced", "removed-then-leave", "ok-then-slot-reused", "first-service-added"][k_ % 11]
+                "more-then-replaced", "removed-then-leave", "ok-then-slot-reused", "first-service-added", "ok-held-then-service-added"][k_ % 12]
+        if kind == "ok-held-then-service-added":
+            # two services are asked; one has said OK and the other still owes its answer when a reload ADDS a third service (before,
+            # between or behind them in the file); the owed answer then arrives: a class rule asking for the first one's OK still matches
+            names = ["a.svc", "b.svc"]
+            okfrom = rng.choice(names)
+            other = [x for x in names if x != okfrom][0]
+            protos = {okfrom: rng.choice(["dronecheck", "dronecheck", "combined"]), other: rng.choice(["dronecheck", "combined"])}
+            svcs2 = [(nm, protos[nm]) for nm in names]
+            cfg = proto.Config(svcs2, timeout=3600, rules=[{"name": "a1", "xreply_ok": okfrom, "class": "checked"}, {"name": "z9", "class": "plain"}], use_class=True)
+            cid = rng.choice([5, 0, 70000])
+            newn = rng.choice(["0new.svc", "ab.svc", "c.svc", "zz.svc"])
+            added = sorted([list(x) for x in svcs2] + [[newn, rng.choice(["dronecheck", "login", "combined"])]]) if rng.random() < 0.5 else \
+                [list(x) for x in svcs2] + [[newn, rng.choice(["dronecheck", "login"])]]
+            tag5 = "%x_1" % cid
+            ev = [{"t": "announce", "id": cid, "ip": "192.0.2.5", "port": 1005}, {"t": "host", "id": cid, "name": "h5.example"}, {"t": "ident", "id": cid, "name": "id5"},
+                  {"t": "nick", "id": cid, "name": "n5"}, {"t": "userinfo", "id": cid, "user": "u5", "real": "R"},
+                  {"t": "reply", "svc": okfrom, "tag": tag5, "text": "OK"}, {"t": "reload", "services": added}]
+            if rng.random() < 0.3:
+                ev += [{"t": "reload", "services": added + [["later.svc", "dronecheck"]]}]
+            ev += [{"t": "reply", "svc": other, "tag": tag5, "text": "OK"}, {"t": "reply", "svc": newn, "tag": tag5, "text": "OK"}, {"t": "hurry", "id": cid}, {"t": "timeout", "id": cid}, {"t": "stats"}]
+            out.append((cfg, ev))
+            continue
         if kind == "first-service-added":
             # the service table is empty when the client is announced; a reload adds the first service(s); the rest of the client's
             # data arrives afterwards: the newcomers are asked as soon as what their protocols need is known
